@@ -25,7 +25,7 @@ ASSUMPTIONS = [
     "family membership is asserted there",
     "ValueError for unknown ids / undecodable values is documented behaviour and not a network failure",
 ]
-MUST = ["answers_cut_off_at_every_length", "requests_after_an_event_loop_change", "failure_count_vs_wire_log", "cfc_checked_through_api", "damaged_frames_not_a_refusal", "os_error_on_send", "os_error_on_receive", "idle_error_keepalive", "tcp_connect_failure", "cfc_checked",
+MUST = ["refusals_reported_as_rejected", "answers_cut_off_at_every_length", "requests_after_an_event_loop_change", "failure_count_vs_wire_log", "cfc_checked_through_api", "damaged_frames_not_a_refusal", "os_error_on_send", "os_error_on_receive", "idle_error_keepalive", "tcp_connect_failure", "cfc_checked",
         "cfc_after_rejection", "cfc_checked_overlapping_calls", "entry_points_under_fault", "settings_read_with_refused_registers", "api_calls_under_fault", "ident_payloads", "discover_payloads", "failed_exception_seen",
         "rejected_exception_seen"]
 EXHAUSTIVE = {"quick": False, "thorough": False}
@@ -60,7 +60,7 @@ def scenario_a(transport, ka, T, R, script, entry, connect=()):
             faults[str(i + 1)] = s[1]
         else:
             peer_script.append(s)
-    step = {"rsensor": ["rsensor", 500], "wsetting": ["wsetting", 500, -7],
+    step = {"rsensor": ["rsensor", 500], "wsetting": ["wsetting", 500, -7], "wmulti": ["multi", 500, "00010002fffe"],
             "send_command": ["api", "send_command", None]}[entry]
     steps = [step, ["sleep", 2.5 * T], ["rsensor", 501]]
     return {"transport": transport, "framing": framing, "keep_alive": ka, "T": T, "R": R, "script": peer_script,
@@ -121,6 +121,16 @@ def run_a(sc, part):
                    f"(script {sc['fullscript']})"))
     elif first and only_damaged:
         part.count("damaged_frames_not_a_refusal")
+    # the inverter answered transmission 1 with an intact exception frame: it REFUSED - that is a RequestRejectedException, whatever the function
+    # (read 0x83, write 0x86, write-multiple 0x90) and not a failed request that counts towards the failure streak
+    s0 = sc["fullscript"][0] if sc["fullscript"] else None
+    # (not for send_command: a raw command has no Modbus validator, whatever comes back is its answer)
+    if first and isinstance(s0, list) and s0[0] == "exc" and not sc.get("connect") and sc["entry"] != "send_command":
+        if first["outcome"] != "RequestRejectedException":
+            vs.append((f"C09/{tag}/refusal-not-reported-as-rejected",
+                       f"{sc['entry']}: the inverter answered with exception code {s0[1]}, the call ended {first['outcome']} (cfc {first.get('cfc')}) (script {sc['fullscript']})"))
+        else:
+            part.count("refusals_reported_as_rejected")
     part.see(repr(("A", tag, sc["keep_alive"], sc["R"], sc["entry"], tuple(c["outcome"] for c in run.calls),
                    tuple(k for k in evk if k in ("tx", "txerr", "rx", "rxerr", "eof", "connect")))))
     for key, msg in vs:
@@ -527,7 +537,7 @@ def plan(tier, seed):
     for transport in ("udp", "tcp"):
         for ka in (False, True):
             for R in ((0, 1) if tier == "quick" else (0, 1, 2)):
-                for entry in ("rsensor", "wsetting", "send_command"):
+                for entry in ("rsensor", "wsetting", "send_command", "wmulti"):
                     if tier == "quick" and R == 1 and entry != "rsensor":
                         continue
                     specs.append({"part": "A", "transport": transport, "ka": ka, "R": R, "entry": entry})
